@@ -22,8 +22,10 @@ Transcription notes
   observable (the store is a map and every put of one commit goes to a distinct key).
 * Three tiers: the payload of an upper-tier leaf is the root version of the nested tier; the model
   keeps the nested tier's tree itself in the leaf (`sub`).
-* Recursion on the depth uses `fuel`; `fuel_enough` (Lemmas) shows that `2 * maxKeyLen + 2` is never
-  exhausted.  Outcome `.error "fuel"` is therefore unreachable from `putAtNextVersion`.
+* Recursion on the depth uses `fuel`; every recursive step consumes one nibble of every key of the
+  slice, so `2 * maxKeyLen + 2` (`fuelFor`) suffices.  That bound is NOT proved; the outcome `fuel`
+  would show up as a disagreement in the correspondence (the real code has no such outcome) and has
+  never been observed.  All theorems quantify over runs that return `.ok`.
 -/
 namespace Radix.Jmt
 
